@@ -41,6 +41,7 @@ struct Node {
     apply: Addr<StateApplyManager>,
     config: Addr<ConfigActor>,
     mcp: Addr<McpManager>,
+    sequence: Addr<SequenceDbManager>,
 }
 
 async fn boot(dir: &std::path::Path) -> Node {
@@ -51,11 +52,12 @@ async fn boot(dir: &std::path::Path) -> Node {
     let apply = StateApplyManager::new().start();
     let config = ConfigActor::new().start();
     let mcp = McpManager::new().start();
+    let sequence = SequenceDbManager::new().start();
     let data = Arc::new(RaftDataHandler {
         config: config.clone(),
         table: TableManager::new().start(),
         namespace: NamespaceActor::new(1).start(),
-        sequence_db: SequenceDbManager::new().start(),
+        sequence_db: sequence.clone(),
         mcp_manager: mcp.clone(),
         naming_actor: NamingActor::new().start(),
         direct_cache_manager: DirectCacheManager::new().start(),
@@ -76,7 +78,7 @@ async fn boot(dir: &std::path::Path) -> Node {
     }
     tokio::time::sleep(Duration::from_millis(150)).await;
     let store = FileStore::new(1, index.clone(), snap, log, apply.clone());
-    Node { store, index, apply, config, mcp }
+    Node { store, index, apply, config, mcp, sequence }
 }
 
 async fn commit(node: &Node, index: u64, req: ClientRequest) {
@@ -631,8 +633,55 @@ async fn naming_snapshot_history() -> Result<(), String> {
     Ok(())
 }
 
+/// C01 (s01_2, catalogue with an older snapshot): writes, a compaction, non-idempotent writes (sequence NextId), a second compaction, one more
+/// write, restart: the entries between the two snapshot ends must not be applied again - the sequence counter the restarted node hands out next
+/// is the one the live node hands out next.
+async fn two_compactions_then_restart() -> Result<(), String> {
+    use crate::sequence::model::{SequenceRaftReq, SequenceRaftResult};
+    let d1 = tempfile::tempdir().unwrap();
+    let d2 = tempfile::tempdir().unwrap();
+    let node = boot(d1.path()).await;
+    let key = Arc::new("verif-seq".to_owned());
+    let next = |k: &Arc<String>| ClientRequest::SequenceReq { req: SequenceRaftReq::NextId(k.clone()) };
+    commit(&node, 1, next(&key)).await;
+    commit(&node, 2, config_set("a.yaml", "a: 1", 1)).await;
+    commit(&node, 3, next(&key)).await;
+    let first = node.store.do_log_compaction().await.map_err(|e| format!("MODEL: first compaction: {}", e))?;
+    commit(&node, 4, next(&key)).await;
+    commit(&node, 5, next(&key)).await;
+    let second = node.store.do_log_compaction().await.map_err(|e| format!("MODEL: second compaction: {}", e))?;
+    commit(&node, 6, next(&key)).await;
+    if first.index != 3 || second.index != 5 {
+        return Err(format!("MODEL: compactions end at {} and {}, expected 3 and 5", first.index, second.index));
+    }
+    let (end, applied) = stop_and_copy(&node, d1.path(), d2.path()).await;
+    let restarted = boot(d2.path()).await;
+    let probe = |n: &Node| n.sequence.send(SequenceRaftReq::NextId(key.clone()));
+    let live = match probe(&node).await {
+        Ok(Ok(SequenceRaftResult::NextId(v))) => v,
+        _ => return Err("MODEL: the live node does not answer NextId".to_owned()),
+    };
+    let after = match probe(&restarted).await {
+        Ok(Ok(SequenceRaftResult::NextId(v))) => v,
+        _ => return Err("the restarted node does not answer NextId".to_owned()),
+    };
+    if live != 6 {
+        return Err(format!("MODEL: the live node hands out {} after five NextId requests", live));
+    }
+    if after != live {
+        return Err(format!(
+            "two compactions (snapshot ends 3 and {}), last applied {}, restart: the next id of the sequence is {} on the restarted node, {} on the node that kept running (entries covered by the newest snapshot are applied again)",
+            end, applied, after, live
+        ));
+    }
+    Ok(())
+}
+
 async fn scenario(name: &str) -> Result<(), String> {
     use tokio::io::AsyncWriteExt;
+    if name == "two_compactions_then_restart" {
+        return two_compactions_then_restart().await;
+    }
     if name == "naming_snapshot_history" {
         return naming_snapshot_history().await;
     }
